@@ -188,6 +188,11 @@ def gen_slot_cases(run, desc):
                 ks = KINDS if (thorough or name in specials) else rng.sample(KINDS, 3 if op == "parse" else 2)
                 for v in ks:
                     cases.append(mk(subst=[[[name], v]]))
+            # a list value with one more element of another kind (a valid element followed by junk)
+            for name in top:
+                if isinstance(base[name], list) and base[name]:
+                    for v in (KINDS if thorough else rng.sample(KINDS, 2)):
+                        cases.append(mk(subst=[[[name], list(base[name]) + [v]]]))
             for name in specials:
                 if name in top or name in absent:
                     continue
@@ -911,6 +916,13 @@ def check(run):
                 msets[i] = mset
                 if not refines(c, r, mset):
                     dis.append((c, r, line))
+                    if r["out"] == "Ok" and not any(n.startswith("Ok") for n, _ in mset):
+                        # "returns a fully validated object": the model (embedded objects constructed structurally)
+                        # has no successful outcome for this input, yet the implementation returned an object
+                        run.violations.append(Violation(
+                            "%s on %s returned an object although an embedded value cannot be constructed / a required check "
+                            "must fail (model outcomes: %s)" % (c["op"], short(c), line[:120]),
+                            {"kind": "accepted", "case": c}))
             run.coverage["correspondence_cases"] = n_model
             run.coverage["correspondence_disagreements"] = len(dis)
             if dis:
@@ -999,6 +1011,8 @@ def replay(payload):
     bad = False
     if r.get("kind") == "family":
         bad = res["out"] == "Raise" and not res.get("family")
+    elif r.get("kind") == "accepted":
+        bad = res["out"] == "Ok"
     elif r.get("kind") == "registry":
         bad = res.get("reg_same") is False and res["out"] == "Raise"
     elif r.get("kind") == "store":
